@@ -2,7 +2,7 @@
 From Coq Require Import Qround Qabs Permutation.
 From DA Require Import Prelude NDArray Array PyRT.
 From DA.Model Require Import Value Reshape SliceSpec Indexing Align Transform Flatten Construct Cache Ops.
-From DA.Proofs Require Import C10_proofs C05_proofs C05_join C05_programs.
+From DA.Proofs Require Import C10_proofs C05_proofs C05_join C05_flatten C05_programs.
 Open Scope string_scope.
 Open Scope nat_scope.
 Open Scope list_scope.
@@ -78,14 +78,25 @@ Print Assumptions C05_rejects_dup_lists.
    sort_axis / interp_axis / interp_like / in-place relabelling / a.dims = / queries; align / binary operations
    in both operand orders / broadcast (to axes with non-empty names, to another array) / broadcast_arrays, whose
    other operands [ins] are well-formed too; stack (new axis name non-empty) and concatenate; and in-place renaming of
-   one axis PROVIDED the new name is not the name of another dimension (open finding axis-name-sibling).  Not covered:
-   flatten / unflatten / reshape with grouped names (their results are compared with the implementation case by case). *)
+   one axis PROVIDED the new name is not the name of another dimension (open finding axis-name-sibling); flatten (the
+   grouped axis takes the product length and a name no other dimension has: the constructor refuses it otherwise),
+   reductions over a tuple of axes and percentiles (scalar or list of percentiles, over one axis or a tuple).  Not covered:
+   unflatten / reshape with grouped names (their results are compared with the implementation case by case). *)
 Theorem C05_step_wf : forall ins o a v, Forall WF ins -> WF a -> covered a o = true -> apply_op ins o a = Ok v -> WFv v.
 Proof. exact apply_op_wf. Qed.
 Print Assumptions C05_step_wf.
 Theorem C05_program_wf : forall ins ops, Forall WF ins -> forall a v, WF a -> prog_covered ins ops a = true -> run_ops ins ops a = Ok v -> WFv v.
 Proof. exact run_ops_wf. Qed.
 Print Assumptions C05_program_wf.
+Theorem C05_flatten_wf : forall rs as_set insert a r, WF a -> flatten rs as_set insert a = Ok r -> WF r.
+Proof. exact flatten_wf. Qed.
+Print Assumptions C05_flatten_wf.
+Theorem C05_reduce_any_wf : forall f skipna ax a v, WF a -> reduce_any f skipna ax a = Ok v -> WFv v.
+Proof. exact reduce_any_wf. Qed.
+Print Assumptions C05_reduce_any_wf.
+Theorem C05_percentile_wf : forall ins qs scalar kk ax a v, WF a -> apply_op ins (OPercentile qs scalar kk ax) a = Ok v -> WFv v.
+Proof. exact percentile_wf. Qed.
+Print Assumptions C05_percentile_wf.
 (* the side condition on renaming is necessary: the faithful model (like the code) accepts a sibling's name *)
 Theorem C05_rename_sibling_refuted :
   exists a r n v, WF a /\ apply_op [] (ORenameAxis r n) a = Ok (VArr v) /\ wfb v = false.
@@ -125,6 +136,17 @@ Proof.
   exists (Arr [Ax "q" KO [LStr "p"; LStr "q"] [] []] [2] KF [N_ 60; N_ 62] [("units", MStr "K")]).
   split; [vm_compute; reflexivity|]. split; vm_compute; reflexivity.
 Qed.
+Definition ex_prog2 : list op :=
+  [ONewaxis "z" None 0; OReduce RSum false (AxMany [ByName "z"; ByName "u"]); OPercentile [1#2; 1#1]%Q false KF (AxOne (ByName "t"))].
+Example C05_grouped_nonvacuous :
+  prog_covered [] ex_prog2 ex3 = true /\
+  exists r, run_ops [] ex_prog2 ex3 = Ok (VArr r) /\ dims r = ["t_percentile"] /\ dat (vals r) = [CNum (280 # 200); CNum (180 # 100)].
+Proof.
+  split; [vm_compute; reflexivity|]. eexists. split; [vm_compute; reflexivity|]. split; vm_compute; reflexivity.
+Qed.
+Example C05_flatten_nonvacuous :
+  exists r, flatten [ByName "u"; ByName "t"] false None ex3 = Ok r /\ dims r = ["u,t"] /\ sh (vals r) = [6].
+Proof. eexists. split; [vm_compute; reflexivity|]. split; vm_compute; reflexivity. Qed.
 Definition ex_v : nd := mk [2; 1] KF (fun c => N_ (Z.of_nat (nth 0 c 0))).
 Definition ex_ls : list labspec := [(KI, [L_ 5; L_ 6]); (KO, [LStr "p"])].
 Definition ex_built : darr := Arr [Ax "x" KI [L_ 5; L_ 6] [] []; Ax "y" KO [LStr "p"] [] []] [2; 1] KF [N_ 0; N_ 1] [].
